@@ -10,6 +10,11 @@ def run_property(rep, keys, hooks=None, explanation="", trusted=(), fallback=Non
     rep.trusted += list(trusted) + ["z3 5.1 / cvc5 1.0.3 soundness", "pyvc executor (guarded by native cross-check and mutation trials)",
                                     "CPython built-ins as axiomatised in pyvc/builtins.py"]
     drv = None
+    if driver and os.environ.get("VERIF_DEV_SKIP_BOUNDED"):
+        # development switch (never part of a registered command): only the deductive part, for engine regression runs
+        rep.extra["bounded_note"] = "bounded driver SKIPPED (VERIF_DEV_SKIP_BOUNDED set)"
+        print(f"NOTE [{rep.pid}] bounded driver skipped (development switch)")
+        driver = False
     if driver:
         try:
             drv = importlib.import_module(f"bcc.drivers.{rep.pid}")
